@@ -1060,6 +1060,9 @@ class Interp:
                     return iconst(x)
                 # truncation / reinterpretation of the sign: not the same number in general
                 return ('icast', tt['name'], v)
+            if kind == 'float_to_int':
+                # truncates toward zero and saturates: an uninterpreted function of the operand and the target type
+                return ('f2i', (rv.get('ty') or {}).get('name'), v)
             if kind in ('ptr_to_ptr', 'transmute'):
                 return v
             raise Unsupported('cast %s' % kind)
